@@ -114,14 +114,29 @@ def showHeaderResult : Except HeaderError (Nat × Nat) → String
 namespace C13
 open Spec.C13
 
+/-- the value a caller's arguments become: `Session::new` keeps the first 64 characters of the name -/
+def clientBuilt : Packet → Packet
+  | .session s => .session { s with name := takeChars Consts.sessionNameMaxChars s.name }
+  | p => p
+
 def check (inp out : List String) : Verdict :=
   match inp, out with
+  | ["enc", k, tok], ["PANIC"] =>
+    -- building the value panicked: no well-formed value of the protocol makes its constructor crash
+    match parseKind? k with
+    | none => .bad "kind"
+    | some k =>
+    match parsePacket? k tok with
+    | some p => { agree := false, model := hexOf (sendPacket (clientBuilt p)), specFail := ["constructor_total"] }
+    | none => .bad "enc tokens"
   | ["enc", k, tok], [bytes, rt] =>
     match parseKind? k with
     | none => .bad "kind"
     | some k =>
     match parsePacket? k tok, hexBytes? bytes with
     | some p, some bytes =>
+      -- the token is what the caller passed; the value is what the constructor made of it
+      let p := clientBuilt p
       let m := sendPacket p
       let payload := bytes.drop 10
       let inb := inBoundsB p
